@@ -192,9 +192,10 @@ mod leaf {
                 arr[0] = $kind as u8;
                         $(
                     check_leaf_convert($kind, &arr[..$l], 0);
-                    check_leaf_convert($kind, &arr[..$l], 31);
-                    check_leaf_convert($kind, &arr[..$l], 32);
                 )*
+                // the nesting limit on the complete value
+                check_leaf_convert($kind, &arr[..], 31);
+                check_leaf_convert($kind, &arr[..], 32);
             }
         };
     }
@@ -205,17 +206,17 @@ mod leaf {
     leaf_convert!(q_c13_leaf_i8, 6, ValueKind::I8, 2, [1, 2]);
     leaf_convert!(q_c13_leaf_u16, 8, ValueKind::U16, 4, [1, 2, 3, 4]);
     leaf_convert!(q_c13_leaf_i16, 8, ValueKind::I16, 4, [1, 2, 3, 4]);
-    leaf_convert!(q_c13_leaf_u32, 10, ValueKind::U32, 6, [1, 2, 4, 5, 6]);
-    leaf_convert!(q_c13_leaf_i32, 10, ValueKind::I32, 6, [1, 2, 4, 5, 6]);
-    leaf_convert!(q_c13_leaf_u64, 14, ValueKind::U64, 10, [1, 2, 5, 9, 10]);
-    leaf_convert!(q_c13_leaf_i64, 14, ValueKind::I64, 10, [1, 2, 5, 9, 10]);
+    leaf_convert!(q_c13_leaf_u32, 10, ValueKind::U32, 6, [1, 2, 5]);
+    leaf_convert!(q_c13_leaf_i32, 10, ValueKind::I32, 6, [1, 2, 5]);
+    leaf_convert!(q_c13_leaf_u64, 14, ValueKind::U64, 10, [1, 2, 9]);
+    leaf_convert!(q_c13_leaf_i64, 14, ValueKind::I64, 10, [1, 2, 9]);
     leaf_convert!(q_c13_leaf_f32, 10, ValueKind::F32, 5, [1, 4, 5]);
     leaf_convert!(q_c13_leaf_f64, 14, ValueKind::F64, 9, [1, 8, 9]);
     leaf_convert!(q_c13_leaf_uuid, 22, ValueKind::Uuid, 17, [1, 16, 17]);
     leaf_convert!(q_c13_leaf_sender, 22, ValueKind::Sender, 17, [1, 16, 17]);
     leaf_convert!(q_c13_leaf_receiver, 22, ValueKind::Receiver, 17, [1, 16, 17]);
     leaf_convert!(q_c13_leaf_object_id, 38, ValueKind::ObjectId, 33, [1, 17, 32, 33]);
-    leaf_convert!(q_c13_leaf_service_id, 70, ValueKind::ServiceId, 65, [1, 33, 64, 65]);
+    leaf_convert!(q_c13_leaf_service_id, 70, ValueKind::ServiceId, 65, [1, 64]);
 
     /// Strings: copied without UTF-8 validation, canonical length prefix.
     #[kani::proof]
@@ -292,7 +293,9 @@ mod shapes {
 
     cshape!(some_u8, 12, 2, |x, y, z| [SOME, U8, x] => [SOME, U8, x]);
     cshape!(enum_u8, 12, 2, |x, y, z| [ENUM, 9, U8, x] => [ENUM, 9, U8, x]);
-    cshape!(enum_wide_noncanonical_id, 12, 2, |x, y, z| [ENUM, 255, y, 0, 0, 0, U8, x] => [ENUM, 255, y, 0, 0, 0, U8, x]);
+    cshape!(enum_wide_id, 12, 2, |x, y, z| [ENUM, 255, y, z, 7, if z == 0 { 1 } else { z }, U8, x] => [ENUM, 255, y, z, 7, if z == 0 { 1 } else { z }, U8, x]);
+    // a non-canonical id (wide form holding a small value) is re-encoded in the short form
+    cshape!(enum_noncanonical_id, 12, 2, |x, y, z| [ENUM, 255, 9, 0, 0, 0, U8, x] => [ENUM, 9, U8, x]);
     cshape!(enum_around_vec2, 12, 3, |x, y, z| [ENUM, 9, VEC2, SOME, U8, x, NONE] => [ENUM, 9, VEC1, 1, U8, x]);
     cshape!(some_around_vec2, 12, 2, |x, y, z| [SOME, VEC2, NONE] => [SOME, VEC1, 0]);
     cshape!(vec2_two, 12, 2, |x, y, z| [VEC2, SOME, U8, x, SOME, U8, y, NONE] => [VEC1, 2, U8, x, U8, y]);
@@ -431,7 +434,7 @@ mod keys {
     keyed_convert!(q_c13_keys_u16_long, 14, tags::U16, 3, 3, |s| s[1] != 0, [255, s[0], s[1]], [255, s[0], s[1]]);
     keyed_convert!(q_c13_keys_i16_long, 14, tags::I16, 3, 3, |s| s[1] != 0, [255, s[0], s[1]], [255, s[0], s[1]]);
     // non-canonical input key: two-byte form holding a small value is re-encoded in one byte
-    keyed_convert!(q_c13_keys_u16_noncanonical, 14, tags::U16, 2, 1, |s| s[0] <= 253, [254, s[0]], [s[0]]);
+    keyed_convert!(#[cfg(any(verif_unit = "all", verif_unit = "convert_keys_t"))] t_c13_keys_u16_noncanonical, 14, tags::U16, 2, 1, |s| s[0] <= 253, [254, s[0]], [s[0]]);
     keyed_convert!(q_c13_keys_u32_long, 16, tags::U32, 5, 5, |s| s[3] != 0, [255, s[0], s[1], s[2], s[3]], [255, s[0], s[1], s[2], s[3]]);
     keyed_convert!(q_c13_keys_i32_long, 16, tags::I32, 5, 5, |s| s[3] != 0, [255, s[0], s[1], s[2], s[3]], [255, s[0], s[1], s[2], s[3]]);
     keyed_convert!(q_c13_keys_u64_long, 20, tags::U64, 9, 9, |s| s[7] != 0, [255, s[0], s[1], s[2], s[3], s[4], s[5], s[6], s[7]], [255, s[0], s[1], s[2], s[3], s[4], s[5], s[6], s[7]]);
